@@ -355,7 +355,11 @@ def gen_C05(rng, tier, want='C05'):
         if backing == 'wmb' and n > 1000: xs = xs[:1000]; n = 1000
         mx = max(xs)
         width = max(1, (mx + 1).bit_length())
-        L = ['case %s-%d n=%d max=%d %s' % (want, ci, n, mx, backing), 'new 0 %s new %s' % (backing, lst(xs))]
+        if ci % 4 == 1 and mx < 2**62:
+            w = rng.choice([max(1, mx.bit_length()), max(1, mx.bit_length()) + rng.randrange(0, 3), 64])
+            L = ['case %s-%d n=%d max=%d %s' % (want, ci, n, mx, backing), 'new 50 cv new %d' % w, 'm 50 extend %s' % lst(xs), 'new 0 %s from_cv 50' % backing]
+        else:
+            L = ['case %s-%d n=%d max=%d %s' % (want, ci, n, mx, backing), 'new 0 %s new %s' % (backing, lst(xs))]
         L += ['q 0 len', 'q 0 alph_size']
         vals = lambda: min(MAXU, rng.choice([rng.choice(xs), rng.choice(xs), rng.randrange(0, mx + 2), mx + 1, 1 << width, (1 << width) + rng.choice(xs), MAXU, 0]))
         if want == 'C05':
@@ -401,7 +405,8 @@ def bv_read(rng, oid, n):
     return 'q %d %s %d' % (oid, m, pos)
 
 def bv_mut(rng, oid, n):
-    m = rng.choice(['push_bit', 'push_bits', 'push_bits', 'set_bit', 'set_bits', 'set_bits', 'extend'])
+    m = rng.choice(['push_bit', 'push_bits', 'push_bits', 'set_bit', 'set_bits', 'set_bits', 'extend', 'shrink'])
+    if m == 'shrink': return 'm %d shrink_to_fit' % oid, n
     if m == 'push_bit': return 'm %d push_bit %d' % (oid, rng.randrange(2)), n + 1
     if m == 'push_bits':
         l = rng.choice([0, 1, 5, 63, 64, 65, rng.randrange(0, 66)])
@@ -591,6 +596,10 @@ def gen_C09(rng, tier):
     cases = []
     for ci in range(150 if tier == 'quick' else 900):
         cases.append(['case C09-%d' % ci] + cv_hist(rng, ci))
+    for ci in range(6):
+        xs = [rng.getrandbits(8) for _ in range(rng.choice([0, 1, 70]))]; ys = [rng.getrandbits(32) for _ in range(rng.choice([1, 70]))]
+        cases.append(['case C09-types-%d' % ci, 'new 0 cv from_slice_u8 %s' % lst(xs), 'q 0 len', 'q 0 width', 'q 0 get_int 0',
+                      'new 1 cv from_slice_u32 %s' % lst(ys), 'q 1 len', 'q 1 width', 'q 1 get_int %d' % (len(ys) - 1), 'm 1 push_int 4294967296'])
     # malformed stream: widths 0/65, uncastable, empty from_slice
     L = ['case C09-malformed']
     for w in (0, 65, 66, MAXU):
@@ -659,6 +668,10 @@ def gen_C11(rng, tier):
         if n <= 1500: L.append('q 0 ser')
         L.append('q 0 size_in_bytes')
         cases.append(L)
+    for ci in range(6):
+        xs = [rng.getrandbits(8) for _ in range(rng.choice([0, 1, 70]))]; ys = [rng.getrandbits(32) for _ in range(rng.choice([1, 70]))]
+        cases.append(['case C11-types-%d' % ci, 'new 0 db from_slice_u8 %s' % lst(xs), 'q 0 len', 'q 0 num_levels', 'q 0 access 0', 'q 0 access %d' % len(xs),
+                      'new 1 db from_slice_u32 %s' % lst(ys), 'q 1 len', 'q 1 num_levels', 'q 1 access 0', 'q 1 access %d' % (len(ys) - 1)])
     cases.append(['case C11-misc', 'new 0 db default', 'q 0 len', 'q 0 num_levels', 'q 0 access 0', 'new 1 db from_slice_i64 3,-1', 'new 2 db from_slice -', 'q 2 len', 'q 2 num_levels', 'eq 0 2'])
     return cases
 
@@ -683,6 +696,10 @@ def gen_C12(rng, tier):
         L.append('it 0 iter - %s' % ','.join(['n'] * min(n + 2, 70)))
         L.append('q 0 ser'); L.append('q 0 size_in_bytes')
         cases.append(L)
+    for ci in range(4):
+        xs = [rng.getrandbits(8) for _ in range(rng.choice([1, 70]))]; ys = [rng.getrandbits(32) for _ in range(rng.choice([1, 70]))]
+        cases.append(['case C12-types-%d' % ci, 'new 0 ps from_slice_u8 %s' % lst(xs), 'q 0 len', 'q 0 sum', 'q 0 access 0',
+                      'new 1 ps from_slice_u32 %s' % lst(ys), 'q 1 len', 'q 1 sum', 'q 1 access %d' % (len(ys) - 1)])
     cases.append(['case C12-misc', 'new 0 ps from_slice -', 'new 1 ps from_slice_i64 1,-1', 'new 2 ps from_slice 0', 'q 2 len', 'q 2 sum', 'q 2 access 0', 'q 2 access 1'])
     return cases
 
